@@ -78,7 +78,7 @@ def _worker(task):
 
     def _alarm(signum, frame):
         raise _Budget()
-    budget = int(os.environ.get("PYVC_INSTANCE_BUDGET", "150" if tier == "quick" else "1500"))
+    budget = int(os.environ.get("PYVC_INSTANCE_BUDGET", "400" if tier == "quick" else "1500"))
     t0 = time.time()   # the parent process enforces the budget by killing this worker (see run_tasks)
     try:
         if _V is None:
@@ -119,7 +119,7 @@ def run_tasks(tasks, nproc, tier, stop_when=None):
     import queue
     import select
     import threading
-    hard = int(os.environ.get("PYVC_INSTANCE_BUDGET", "150" if tier == "quick" else "1500"))
+    hard = int(os.environ.get("PYVC_INSTANCE_BUDGET", "400" if tier == "quick" else "1500"))
     stop = {"flag": False}
     q = queue.Queue()
     for i, t in enumerate(tasks):
